@@ -107,6 +107,14 @@ def dump_field(kind):
     return {"inv": "inv", "rate": "exp_rate", "guard": "guard", "sync": "sync", "asg": "assign", "prob": "prob", "sel": "select"}[kind]
 
 
+def is_csp_sync(text):
+    """`c?` -> `c` (also through a comment that swallows the `?`) is a VALID CSP synchronisation; mixing CSP with `!`/`?` elsewhere
+    is a constraint between blocks, not a fault of this one"""
+    t = re.sub(r"/\*.*?(\*/|$)", " ", text, flags=re.S)
+    t = re.sub(r"//[^\n]*", " ", t)
+    return re.match(r"^\s*[A-Za-z_]\w*(\s*\[[^\]]*\])?\s*$", t) is not None
+
+
 def single_faults(text, kind):
     """-> [(fault class, token index, new text)] : one fault at every token position"""
     toks = tokens(text)
